@@ -32,7 +32,15 @@ def matches_pattern(path: str, pattern: str) -> bool:
     """
     if pattern.endswith("/"):
         return _matches_directory_pattern(path, pattern)
-    return fnmatch.fnmatch(path, pattern) or fnmatch.fnmatch(str(Path(path)), pattern)
+    if fnmatch.fnmatch(path, pattern) or fnmatch.fnmatch(str(Path(path)), pattern):
+        return True
+    if "/" not in pattern:
+        # gitignore: a pattern without a slash is matched against the file name at any depth
+        return fnmatch.fnmatch(Path(path).name, pattern)
+    if pattern.startswith("**/"):
+        # gitignore: a leading "**/" also matches zero directories
+        return matches_pattern(path, pattern[3:])
+    return False
 
 
 def _matches_directory_pattern(path: str, pattern: str) -> bool:
@@ -46,10 +54,14 @@ def _matches_directory_pattern(path: str, pattern: str) -> bool:
         True if path is within the directory
     """
     dir_pattern = pattern.rstrip("/")
+    if dir_pattern.startswith("**/") and _matches_directory_pattern(path, dir_pattern[3:] + "/"):
+        # gitignore: a leading "**/" also matches zero directories
+        return True
     path_parts = Path(path).parts
     if dir_pattern in path_parts:
         return True
-    return fnmatch.fnmatch(path, dir_pattern + "*")
+    # match on a path-component boundary: "legacy/" must not match "legacy_module.py"
+    return fnmatch.fnmatch(path, dir_pattern + "/*")
 
 
 def extract_patterns_from_content(content: str) -> list[str]:
